@@ -14,7 +14,7 @@ impl<T> VIter<T> {
             is_subsequence(r@, self@),
     { unimplemented!() }
     #[verifier::external_body]
-    pub fn collect(self) -> (r: Vec<T>) ensures r@ == self@ { unimplemented!() }
+    pub fn collect(self) -> (r: Vec<T>) ensures r@ == self@, r@.len() <= usize::MAX / 2 { unimplemented!() }   // (A-alloc)
     // Iterator::find: first element satisfying the closure
     #[verifier::external_body]
     pub fn find<F: Fn(&T) -> bool>(self, f: F) -> (r: Option<T>)
@@ -93,6 +93,21 @@ pub fn vf_map_into<T, U, F: Fn(T) -> U>(v: Vec<T>, f: F) -> (r: Vec<U>)
     requires forall|i: int| 0 <= i < v@.len() ==> f.requires((#[trigger] v@[i],))
     ensures r@.len() == v@.len(), forall|i: int| 0 <= i < v@.len() ==> f.ensures((v@[i],), #[trigger] r@[i])
 { unimplemented!() }
+// `v.iter().filter(f).collect::<Vec<&T>>()`: references to, in order, the elements accepted by the closure
+#[verifier::external_body]
+pub fn vf_filter_refs<'a, T, F: Fn(&&'a T) -> bool>(v: &'a Vec<T>, f: F) -> (r: Vec<&'a T>)
+    requires forall|x: &'a T| #[trigger] f.requires((&x,))
+    ensures forall|i: int| 0 <= i < r@.len() ==> v@.contains(*(#[trigger] r@[i])) && f.ensures((&r@[i],), true)
+{ unimplemented!() }
+// `v.iter().find(f)`: a reference to the first element accepted by the closure
+#[verifier::external_body]
+pub fn vf_find_ref<'a, T, F: Fn(&&'a T) -> bool>(v: &'a Vec<T>, f: F) -> (r: Option<&'a T>)
+    requires forall|x: &'a T| #[trigger] f.requires((&x,))
+    ensures r matches Some(x) ==> v@.contains(*x) && f.ensures((&x,), true)
+{ unimplemented!() }
+// `v.contains(x)` (PartialEq = structural equality for the key types used)
+#[verifier::external_body]
+pub fn vf_vec_contains<T>(v: &Vec<T>, x: &T) -> (r: bool) ensures r == v@.contains(*x) { unimplemented!() }
 // `v.iter().any(f)`
 #[verifier::external_body]
 pub fn vf_any<T, F: Fn(&T) -> bool>(v: &Vec<T>, f: F) -> (r: bool)
